@@ -133,6 +133,9 @@ func relayScenario(s *verifsim.Sim) {
 	logger.SetOutput(io.Discard)
 
 	faults := T.Chance(1, 3)
+	// half of the runs let the simulated streams answer the gather write's "is more
+	// queued in the socket" question (TIOCINQ on a real *net.TCPConn): relay_hooks.go.txt
+	verifRelaySeamReset(T.Chance(1, 2))
 	port := []uint16{443, 80, 53, 22, 8443}[T.Pick(4, 2, 3, 1, 1)]
 	sniffTimeout := []time.Duration{100 * time.Millisecond, 20 * time.Millisecond, 500 * time.Millisecond}[T.Choose(3)]
 	dialMode := consts.DialMode_DomainPlus
@@ -226,6 +229,15 @@ func relayScenario(s *verifsim.Sim) {
 		// once the upstream has half-closed, the client direction is only guaranteed
 		// for the grace period: keep the client's script well inside it
 		midIdle = 5 * time.Second
+	}
+	// a client that has nothing to say: it shuts down its sending side right away (inside
+	// dae's wait for a first byte) and listens (server-first protocol, `nc -N host port </dev/null`)
+	earlyFin := hello == nil && closeOrder != 1 && T.Chance(1, 3)
+	if earlyFin {
+		tail, cops = nil, nil
+		if g := []time.Duration{0, sniffTimeout / 4}[T.Choose(2)]; g > 0 {
+			cops = append(cops, relayOp{kind: 1, sleep: g})
+		}
 	}
 	if len(tail) > 0 {
 		half := len(tail) / 2
@@ -544,6 +556,13 @@ func relayScenario(s *verifsim.Sim) {
 			return
 		}
 	}
+	if !faults && o.tDial < 0 {
+		s.Failf("c05-never-dialled", "%s earlyFin=%v: dae accepted a healthy connection (the client stayed to the end, half-closed at %v) but never dialled the upstream; handleConn returned %v", desc, earlyFin, o.cliCloseWriteAt, o.hErr)
+		return
+	}
+	if earlyFin {
+		s.Probe("relay.payloadless-client-fin")
+	}
 	if o.faultFired || !o.dialed {
 		// relaxed: an injected error may lose data, never corrupt it (checked above); both ends must be released
 		if !lEnd.IsClosed() {
@@ -638,7 +657,7 @@ func TestSimC05(t *testing.T) {
 		Prop: "C05", Name: "relay", MaxSteps: 40000, Scenario: relayScenario,
 		Reset: func() { componentdialer.ResetGlobalProxyStateForReload() },
 		Real:  []string{"control.ControlPlane.handleConn (DNS-over-TCP detection, bufioConn, prefetchForTcpSniff, prefixedConn, negative sniff cache), routeDial/chooseProxyDialer/ChooseDialTarget, RelayTCPContextWithRecords: relayCore.run, defaultRelayCopyEngine (gather prefix write, continuation copy, buffered loop)", "component/sniffing ConnSniffer / Sniffer stream path (TLS + HTTP)", "real userspace RoutingMatcher, DialerGroup, dialer.Dialer"},
-		Stubs: []string{"client and upstream connections: simulated streams (not *net.TCPConn): splice/writev fast paths and TIOCINQ probing are not executed", "conn_state/routing hand-over lookup: no bpf objects, handleConn takes its documented userspace-routing fallback", "DNS controller absent: valid DNS-over-TCP frames on port 53 fall through to the relay"},
+		Stubs: []string{"client and upstream connections: simulated streams (not *net.TCPConn): splice and writev system calls are not executed; the TIOCINQ question of the gather write is answered by the simulated stream in half of the runs (overlay seam relay_hooks.go.txt)", "conn_state/routing hand-over lookup: no bpf objects, handleConn takes its documented userspace-routing fallback", "DNS controller absent: valid DNS-over-TCP frames on port 53 fall through to the relay"},
 		Rule:  "tape draws destination port (443/80/53/22/8443), dial mode, sniff timeout, first bytes (TLS ClientHello with/without SNI from crypto/tls, HTTP/1 heads, SSH banner, TLS-looking junk, DNS frame, or nothing = server-first), cut points and gaps of the first bytes relative to the timeout, payload sizes up to 70 KB, mid-connection idle gaps up to 25 s, order of the two half-closes, late data inside the grace period, dial delay; fault runs add dial failure, upstream write error after k bytes, client reset; the scheduler re-segments and delays every delivery",
 	})
 }
